@@ -149,8 +149,8 @@ func callWrapsError(call *ssa.Call) bool {
 }
 
 func checkC05(c *Ctx, r *Report) {
-	r.Rules = []string{"D1+D5 plan decision table", "D6 Less ordering table", "K2 insert-after-collision-check", "K1 key=destination", "O5 parents-before-entry / sort-before-return", "T2 order-insensitive map iteration (files, glob)"}
-	r.Explanation = "Static decision of the structural necessary conditions of content planning: (D1+D5) files.PrepareForPackager is abstractly evaluated (finite-domain constant propagation over go/ssa, no execution) for every cell packager x entry-packager-tag x entry type, and the set of live plan mechanisms (skip / dir insert / single insert / tree walk / glob / invalid-type error) is compared with the table transcribed from the statement; (D6) Contents.Less is evaluated on all 27 orderings of (destination, type, packager) and must be the lexicographic order; (K2) every insert into the destination map is dominated by a lookup on the same map whose occupied edge can return the collision error; (O5) parents are added before each declared entry and the returned slice is sorted before every success return; (T2) every map range in files/glob is order-insensitive by an enumerated idiom. Not decided: lexical cleaning, glob-to-destination mapping, tree walking on disk."
+	r.Rules = []string{"D1+D5 plan decision table", "D6 Less ordering table", "K2 insert-after-collision-check", "K1 key=destination", "O5 parents-before-entry / sort-before-return", "T2 order-insensitive map iteration (files, glob)", "G-base the base of every relative-path computation is a whole directory", "G-prefix no bare string-prefix containment test on paths", "fixture"}
+	r.Explanation = "Static decision of the structural necessary conditions of content planning: (D1+D5) files.PrepareForPackager is abstractly evaluated (finite-domain constant propagation over go/ssa, no execution) for every cell packager x entry-packager-tag x entry type, and the set of live plan mechanisms (skip / dir insert / single insert / tree walk / glob / invalid-type error) is compared with the table transcribed from the statement; (D6) Contents.Less is evaluated on all 27 orderings of (destination, type, packager) and must be the lexicographic order; (K2) every insert into the destination map is dominated by a lookup on the same map whose occupied edge can return the collision error; (O5) parents are added before each declared entry and the returned slice is sorted before every success return; (T2) every map range in files/glob is order-insensitive by an enumerated idiom; (G-base) every definition of the base argument of filepath.Rel in files and internal/glob is the entry's configured path or was cut at a separator by filepath.Dir after any string slicing, and (G-prefix) no strings.HasPrefix/TrimPrefix/CutPrefix in those packages takes a computed prefix that does not end in a separator by construction - a common string prefix is not a directory. Not decided: lexical cleaning, which directory is the deepest common one for a given match list, tree walking on disk."
 	r.Assumptions = []string{
 		"filepath.Clean/Join/Rel, fileglob and WalkDir behave as documented (path normalisation semantics are not analysed)",
 		"a Content entry is touched by the planner's selection logic only through ==/!= comparisons of its Type and Packager fields (any other use makes the evaluator fork both ways)",
@@ -323,6 +323,7 @@ func checkC05(c *Ctx, r *Report) {
 		return pp == filesPath || pp == globPath
 	})
 	r.Floor("T2", n, 2)
+	checkGlobBase(c, r)
 	r.Exhaustive = true
 }
 
